@@ -185,7 +185,9 @@ Definition partition (pf : vec -> vec -> Q -> Q -> Q) (feed top0 bot0 : vec) (id
       let bot3 := scatter bot2 ids (c_arr c) in
       mkP (vsub feed bot3) bot3 (Ok phi) (c_warns c)
     end
-  else mkP (vsub feed bot2) bot2 (Ok 1) 0.
+  else
+    let bot3 := scatter_c bot2 ids 0 in
+    mkP (vsub feed bot3) bot3 (Ok 1) 0.
 
 (* separations.phase_fraction: the same computation without outlets; the clipped array is dropped *)
 Definition phase_fraction (pf : vec -> vec -> Q -> Q -> Q) (feed : vec) (ids : list nat) (K : vec)
